@@ -133,6 +133,10 @@ Definition wf_exc (a : str) : bool := nonempty a && all_printable a && negb (con
 (* the argument text of a documented signature `name(args)` *)
 Definition wf_sigargs (a : str) : bool := all_printable a && negb (contains_char colon a).
 
+(* the type between parentheses of a Returns/Yields/Receives item: non-empty, and "):" does not occur in it
+   (the non-greedy type group ends at the first "):") *)
+Definition wf_rann (a : str) : bool := nonempty a && all_printable a && negb (has_parencolon a).
+
 (* a bare description of a Returns/Yields/Receives item must not read as `name:` / `name (type):` / `(type):` :
    after its first word and the blanks that follow, the next character is neither ':' nor '(' *)
 Definition wf_desc_only (d0 : str) : bool :=
@@ -145,8 +149,7 @@ Definition wf_desc_only (d0 : str) : bool :=
 Definition opt_all (f : str -> bool) (o : option str) : bool := match o with Some s => f s | None => true end.
 Definition is_some {A} (o : option A) : bool := match o with Some _ => true | None => false end.
 
-(* pc = also require that the description of a typed Returns/Yields/Receives item has no "):" (finding C13-F1) *)
-Definition wf_item_gen (pc : bool) (k : kind) (it : witem) : bool :=
+Definition wf_item (k : kind) (it : witem) : bool :=
   wf_desc (w_d0 it) (w_conts it) &&
   match k with
   | KParams | KOther | KAttrs => is_some (w_name it) && opt_all wf_name (w_name it) && opt_all wf_ann (w_ann it)
@@ -154,26 +157,9 @@ Definition wf_item_gen (pc : bool) (k : kind) (it : witem) : bool :=
   | KModules => is_some (w_name it) && opt_all wf_name (w_name it) && negb (is_some (w_ann it))
   | KRaises | KWarns => negb (is_some (w_name it)) && is_some (w_ann it) && opt_all wf_exc (w_ann it)
   | KReturns | KYields | KReceives =>
-      opt_all wf_word (w_name it) && opt_all (fun a => nonempty a && all_printable a) (w_ann it)
-      && (if is_some (w_ann it) then negb pc || negb (has_parencolon (w_d0 it)) else true)
+      opt_all wf_word (w_name it) && opt_all wf_rann (w_ann it)
       && (if is_some (w_name it) || is_some (w_ann it) then true else wf_desc_only (w_d0 it))
   | _ => false
-  end.
-Definition wf_item := wf_item_gen true.
-
-(* the attribute-annotation leak (finding C13-F2) must not be triggered: an item without annotation whose name the
-   parent does not know may only follow items that produced no annotation *)
-Fixpoint attr_gapfree (c : pctx) (seen : bool) (its : list witem) : bool :=
-  match its with
-  | [] => true
-  | it :: r =>
-      match w_ann it with
-      | Some _ => attr_gapfree c true r
-      | None => match lookup_attr c (oapp (w_name it)) with
-                | Some a => attr_gapfree c (is_some a) r
-                | None => negb seen && attr_gapfree c seen r
-                end
-      end
   end.
 
 Definition wf_header (h : str) : bool :=
@@ -182,23 +168,19 @@ Definition wf_title (t : str) : bool := nonempty t && all_printable t && first_n
 
 Definition wf_text_line (l : str) : bool := all_printable l && first_not_space l && negb (is_fence l).
 
-(* leak = also require that the attribute-annotation leak (finding C13-F2) is not triggered *)
-Definition wf_sec_gen (pc leak : bool) (c : pctx) (s : wsec) : bool :=
+Definition wf_sec (c : pctx) (s : wsec) : bool :=
   match s with
   | WText ls => nonempty (hd [] ls) && last_nonempty ls && forallb wf_text_line ls && match ls with [] => false | _ => true end
   | WItems k h t its =>
       wf_header h && opt_all wf_title t
       && match g_section_kind (lower h) with Some k' => kind_eqb k k' | None => false end
       && match its with [] => false | _ => true end
-      && forallb (wf_item_gen pc k) its
-      && match k with KAttrs => negb leak || attr_gapfree c false its | _ => true end
+      && forallb (wf_item k) its
   | WAdm h t ls =>
       wf_header h && opt_all wf_title t
       && match g_section_kind (lower h) with Some _ => false | None => true end
       && match ls with l0 :: r => nonempty l0 && wf_desc l0 r | [] => false end
   end.
-
-Definition wf_sec := wf_sec_gen true true.
 
 Definition is_text (s : wsec) : bool := match s with WText _ => true | _ => false end.
 
@@ -208,6 +190,4 @@ Fixpoint no_adjacent_text (secs : list wsec) : bool :=
   | _ => true
   end.
 
-Definition wf_secs_gen (pc leak : bool) (c : pctx) (secs : list wsec) : bool :=
-  forallb (wf_sec_gen pc leak c) secs && no_adjacent_text secs.
-Definition wf_secs := wf_secs_gen true true.
+Definition wf_secs (c : pctx) (secs : list wsec) : bool := forallb (wf_sec c) secs && no_adjacent_text secs.
